@@ -47,14 +47,15 @@ import (
 func init() {
 	kit.Register(&kit.Spec{
 		ID:      "C11",
-		Rule:    "part 1: per parameter set (mainnet, testnet, regnet, compressed) every *Height parameter +-2, every halving boundary up to 2^32-1 +-2, 0 and 2^32-1, plus seeded uniform and schedule-concentrated heights; each with its successor. part 2: per height 0..3 signed transfers with random fees (min fee .. half the coin), the honest coinbase vector and single mutations of it (each value +-1 and +-2^k, two values exchanged, split moved with total preserved, extra / missing output, a negative output compensated by a larger one, vectors whose int64 sum wraps such as [2^63-1, 2^63-1, total+2]) submitted as solved blocks to ProcessBlock on the current tip, in two eras: heights below PublicDPOSHeight and heights above it (proof-of-work chain, PublicDPOSHeight lowered to 12); every third height is a pure positive control. distinct = distinct (parameter set, height) / distinct (era, height, class, output vector); non-trivial = height at or above the new-issuance height (part 1) / block passed proof-of-work and header checks so that the coinbase rule decided (part 2: every candidate is a solved block on the tip)",
+		Rule:    "part 1: per parameter set (mainnet, testnet, regnet, compressed) every *Height parameter +-2, every halving boundary up to 2^32-1 +-2, 0 and 2^32-1, plus seeded uniform and schedule-concentrated heights; each with its successor. part 2: per height 0..3 signed transfers with random fees (min fee .. half the coin), the honest coinbase vector and single mutations of it (each value +-1 and +-2^k, two values exchanged, split moved with total preserved, extra / missing output, a negative output compensated by a larger one, vectors whose int64 sum wraps such as [2^63-1, 2^63-1, total+2]) submitted as solved blocks to ProcessBlock on the current tip, in two eras: heights below PublicDPOSHeight and heights above it (proof-of-work chain, PublicDPOSHeight lowered to 12); every third height is a pure positive control; and in the DPoS v2 era (kit dposv2-era bootstrapped past DPoSV2ActiveHeight+1, first DPOS consensus, then POW consensus after a real RevertToPOW block): per height every such mutation plus each fixed address replaced by each other known address, the CR/DPoS addresses exchanged and the other consensus mode's addresses, each as a solved and confirmed block through the BlockPool, all of which must be refused before the honest block is accepted. distinct = distinct (parameter set, height) / distinct (era, height, class, output vector); non-trivial = height at or above the new-issuance height (part 1) / block passed proof-of-work and header checks so that the coinbase rule decided (part 2: every candidate is a solved block on the tip)",
 		Shards:  func(tier string) int { return 8 },
 		Run:     runC11,
-		Require: []string{"p1_heights", "p1_monotone_pairs", "p1_halving_boundaries", "p1_exact_matches", "p2_rounds", "p2_honest_accepted", "p2_honest_accepted:pow-h1", "p2_honest_accepted:pow-h2", "p2_mutants_submitted", "p2_mutants_rejected", "p2_fee_blocks", "p2_replays", "p2_wrap_candidates", "p2_negative_candidates"},
+		Require: []string{"p1_heights", "p1_monotone_pairs", "p1_halving_boundaries", "p1_exact_matches", "p2_rounds", "p2_honest_accepted", "p2_honest_accepted:pow-h1", "p2_honest_accepted:pow-h2", "p2_honest_accepted:dposv2", "p2_v2_honest_accepted:dpos", "p2_v2_honest_accepted:pow", "p2_v2_mutants_submitted:dpos", "p2_v2_mutants_submitted:pow", "p2_v2_fee_blocks:dpos", "p2_mutants_submitted", "p2_mutants_rejected", "p2_fee_blocks", "p2_replays", "p2_wrap_candidates", "p2_negative_candidates"},
 		Assumptions: []string{"math/big and integer division are correct",
 			"schedule model: 4% of 33,000,000 ELA per year before NewELAIssuanceHeight, 4% of 20,000,000 ELA per year after it, 262800 blocks per year, halved at HalvingRewardHeight and every HalvingRewardInterval after it; result truncated to 1e-8 ELA",
 			"kit node: regnet parameters, CheckRewardHeight=0 (coinbase amount errors are not discarded)",
-			"part 2 covers the two coinbase rules that apply before DPoSV2ActiveHeight+2 on a chain without registered producers (no arbiter round rewards); the H2 rule is reached by lowering PublicDPOSHeight to 12 on regnet; the DPoS v2 rule is a pluggable era (c11RegisterEra) and not part of this evidence unless the counter p2_era:dposv2 is present",
+			"part 2 covers the two coinbase rules that apply before DPoSV2ActiveHeight+2 on a chain without registered producers (no arbiter round rewards; the H2 rule is reached by lowering PublicDPOSHeight to 12 on regnet) and the DPoS v2 rule on the kit's compressed dposv2-era chain (props/c11_dposv2.go: real producers, committee, stake and votes; CRDutyPeriod raised so that the committee lasts; blocks confirmed with the harness keys of the current arbiters)",
+			"DPoS v2 rule as stated: three outputs, exact sum subsidy+fees, CR and DPoS shares within 1 sela of ceil(30%) / ceil(35%) in exact rationals, CR / DPoS share paid to the CR assets / DPoS v2 reward accumulation address in DPOS consensus and to the destroy address in POW consensus; the miner's own address is not fixed by the statement; per height only one value vector may be accepted",
 			"in the H2 era the coinbase pays subsidy+fees minus ceil(35%) (the DPoS share is withheld); the oracle allows +-1 sela for the node's float arithmetic"},
 	})
 }
